@@ -208,16 +208,18 @@ func (in *c13Inj) step(name string) {
 }
 
 type c13Outcome struct {
-	E                 bool     `json:"error_reported"`
-	Errors            []string `json:"errors"`
-	Got               []int    `json:"pulled"`
-	Correct           bool     `json:"correct"`
-	Fired             bool     `json:"fault_reached"`
-	FiredAt           string   `json:"fault"`
-	Counts            map[string]int
-	Panicked          string   `json:"panic,omitempty"`
-	DrainedAfterError bool     `json:"drained_to_eof_after_the_error,omitempty"`
-	Residue           []string `json:"run_files_left_after_that_drain,omitempty"`
+	E                   bool     `json:"error_reported"`
+	Errors              []string `json:"errors"`
+	Got                 []int    `json:"pulled"`
+	Correct             bool     `json:"correct"`
+	Fired               bool     `json:"fault_reached"`
+	FiredAt             string   `json:"fault"`
+	Counts              map[string]int
+	Panicked            string   `json:"panic,omitempty"`
+	CleanUpErr          string   `json:"cleanup_error,omitempty"`
+	DirLeftAfterCleanUp bool     `json:"directory_exists_after_cleanup,omitempty"`
+	DrainedAfterError   bool     `json:"drained_to_eof_after_the_error,omitempty"`
+	Residue             []string `json:"run_files_left_after_that_drain,omitempty"`
 }
 
 // c13Exec runs one workload with at most one injected fault.
@@ -311,6 +313,18 @@ func c13Exec(r *obs.Run, p c13Plan, vals []int) (out c13Outcome) {
 	out.Correct = len(out.Got) == len(want)
 	for k := 0; out.Correct && k < len(want); k++ {
 		out.Correct = out.Got[k] == want[k]
+	}
+	// whatever failed before: CleanUp removes the sorter's directory
+	if inj.dir != "" {
+		inj.mu.Lock()
+		inj.undo(-1)
+		inj.mu.Unlock()
+		if err := m.CleanUp(); err != nil {
+			out.CleanUpErr = err.Error()
+		}
+		if _, err := os.Stat(inj.dir); err == nil {
+			out.DirLeftAfterCleanUp = true
+		}
 	}
 	time.Sleep(500 * time.Microsecond)
 	return
@@ -602,6 +616,11 @@ func c13One(r *obs.Run, p c13Plan, vals []int) {
 	}
 	if !out.E && !out.Correct && out.Panicked == "" {
 		r.Violate("failure-hidden", fmt.Sprintf("%s (workload %+v, concurrent=%v): no Push/Finalise/Pull reported an error, yet %d of %d values were delivered: %v", out.FiredAt, p.W, p.Concurrent, len(out.Got), len(vals), out.Got), w)
+	}
+	if out.DirLeftAfterCleanUp || out.CleanUpErr != "" {
+		r.Violate("cleanup-residue", fmt.Sprintf("%s (workload %+v, concurrent=%v): after the run CleanUp returned %q and the temporary directory exists: %v", out.FiredAt, p.W, p.Concurrent, out.CleanUpErr, out.DirLeftAfterCleanUp), w)
+	} else {
+		r.Count("cleanups_after_a_fault_run", 1)
 	}
 	if out.DrainedAfterError {
 		r.Count("autoclear_drains_after_a_read_error", 1)
